@@ -484,6 +484,10 @@ def run(ctx, facet, quick, thorough, with_corr=True):
             continue            # the listing of the other facets has no retarget_symbol_uses
         ctx.count("corpus")
         camp.add(c)
+    if facet == "C03":
+        for _ in range(ctx.budget(30, 600)):
+            ctx.count("retarget-of-a-deleted-block")
+            camp.add(emodify.retarget_of_a_deleted_block(ctx.rng))
     n = ctx.budget(quick, thorough)
     for k in range(n):
         # C03: mostly listings whose control flow is defined; every sixth one may run off its end (closure clause only)
